@@ -243,6 +243,9 @@ def const_of(e: Optional[ast.AST]):
     return "expr"
 
 
+LATER_RULES = ' Later rules: R16.4 emptiness by iteration; R16.6/R16.12 through helpers; R16.11 also while-else and remove_dead_ifs; R16.13 counts parameters; (R16.14) analysers keep no module-level memory; (R16.15) named callees and undecorated functions only.'
+
+
 def check(prog: Program, tier: str) -> Result:
     res = Result(
         "C16",
@@ -265,6 +268,7 @@ def check(prog: Program, tier: str) -> Result:
             "covered fields."),
         rule_text="instances = (analyser, ast kind) pairs, loop/if branches of is_blocking, consumer sites; non-trivial = kinds that can receive the unsafe answer",
     )
+    res.explanation += LATER_RULES
     res.trusted_base = ["CPython ast (class list and _fields of the running interpreter)",
                         "reference table of evaluated fields per node kind in sa/props/c16.py",
                         "impure-builtin blacklist (shared with C15)"]
